@@ -833,7 +833,12 @@ class SelSuite:
             out = "None" if obs.get("err") else "(Some %s)" % clist([cbool(x) for x in obs["val"]])
             return f"(KSelArr {case['rows']} {case['cols']} {carr(case['wells'], cstr)} {out})"
         r, c, m = case["rows"], case["cols"], case["bits"]
-        bits = clist([cbool((m >> i) & 1) for i in range(r * c)])
+        n = r * c
+        if n > 14 and m == (1 << n) - 1:
+            return f"(KSelAll {r} {c} {cstr(obs['val'])})"
+        if n > 14 and m and m & (m - 1) == 0:
+            return f"(KSelOne {r} {c} {m.bit_length() - 1} {cstr(obs['val'])})"
+        bits = clist([cbool((m >> i) & 1) for i in range(n)])
         return f"(KSel {r} {c} {bits} {cstr(obs['val'])})"
 
     def nontrivial(self, case, obs):
@@ -904,6 +909,7 @@ class XformSuite:
                 for d in ("cw", "ccw"):
                     cases.append({"k": d, "R": R, "C": C, "wells": allw})
                     cases.append({"k": d, "R": R, "C": C, "wells": {"shape": "list", "v": [wid(rng.randrange(R), rng.randrange(C)) for _ in range(3)]}})
+                    cases.append({"k": d, "R": R, "C": C, "wells": {"shape": "2d", "v": [[wid(r, c) for r in range(R)][::-1] for c in range(C)]}})
                 cases.append({"k": "cw", "R": R, "C": C, "wells": {"shape": "scalar", "v": wid(R - 1, C - 1)}})
                 cases.append({"k": "ccw", "R": R, "C": C, "wells": {"shape": "list", "v": [wid(R, 0)]}})
         RB, CB = (4, 6) if tier == "quick" else (6, 8)
@@ -918,11 +924,21 @@ class XformSuite:
                                 anchor = wid(ar, ac)
                                 allw = {"shape": "2d", "v": [[wid(r, c) for c in range(ca)] for r in range(ra)]}
                                 cases.append({"k": "shift", "A": [ra, ca], "B": [rb, cb], "anchor": anchor, "wells": allw})
+                                # unsorted, repeated, column-major and reversed arguments
+                                flat = [wid(r, c) for r in range(ra) for c in range(ca)]
+                                pick = [rng.choice(flat) for _ in range(rng.choice([2, 3, 5]))]
+                                cases.append({"k": "shift", "A": [ra, ca], "B": [rb, cb], "anchor": anchor, "wells": {"shape": "list", "v": pick}})
+                                cases.append({"k": "shift", "A": [ra, ca], "B": [rb, cb], "anchor": anchor,
+                                              "wells": {"shape": "2d", "v": [[wid(r, c) for r in range(ra)] for c in range(ca)]}})
+                                cases.append({"k": "shift", "A": [ra, ca], "B": [rb, cb], "anchor": anchor, "wells": {"shape": "list", "v": flat[::-1]}})
                                 if ra + ar <= rb and ca + ac <= cb and ar < rb and ac < cb:
                                     img = {"shape": "2d", "v": [[wid(r + ar, c + ac) for c in range(ca)] for r in range(ra)]}
                                     cases.append({"k": "unshift", "A": [ra, ca], "B": [rb, cb], "anchor": anchor, "wells": img})
                                     cases.append({"k": "unshift", "A": [ra, ca], "B": [rb, cb], "anchor": anchor,
                                                   "wells": {"shape": "scalar", "v": wid(ar, ac)}})
+                                    imgs = [wid(r + ar, c + ac) for r in range(ra) for c in range(ca)]
+                                    cases.append({"k": "unshift", "A": [ra, ca], "B": [rb, cb], "anchor": anchor,
+                                                  "wells": {"shape": "list", "v": [rng.choice(imgs) for _ in range(3)] + imgs[::-1][:2]}})
         nseeds = 4 if tier == "quick" else 40
         for R, C in [(1, 1), (2, 3), (4, 6), (8, 12), (3, 1), (1, 5)] + ([(16, 24)] if tier == "thorough" else []):
             for sd in range(nseeds):
